@@ -212,7 +212,7 @@ func (la *LockAn) mapToCallee(ls LS, call ssa.CallInstruction, callee *ssa.Funct
 				continue
 			}
 			if k == ap || strings.HasPrefix(k, ap+".") {
-				out["param:"+p.Name()+k[len(ap):]] = v
+				out["param:"+canonParam(p)+k[len(ap):]] = v
 			}
 		}
 	}
@@ -226,7 +226,7 @@ func mapToCaller(k string, call ssa.CallInstruction, callee *ssa.Function) (stri
 		if i >= len(args) {
 			break
 		}
-		pp := "param:" + p.Name()
+		pp := "param:" + canonParam(p)
 		if k == pp || strings.HasPrefix(k, pp+".") {
 			ap := strings.TrimPrefix(Path(args[i]), "&")
 			return ap + k[len(pp):], true
